@@ -211,7 +211,7 @@ def mutate_node(rng, l, T, tg):
     if k == "tup":
         opts += ["tup-drop", "tup-add", "tup-swap", "tup-as-array"]
     if k == "st":
-        opts += ["st-permute"] * 3 + ["st-duplicate"] * 3 + ["st-drop", "st-extra", "st-rename", "st-field-rename"]
+        opts += ["st-permute"] * 3 + ["st-duplicate"] * 3 + ["st-repeat"] * 3 + ["st-drop", "st-extra", "st-rename", "st-field-rename"]
     if k == "en":
         opts += ["en-arity-short"] * 2 + ["en-arity-long"] * 3 + ["en-unit-tuple", "en-unknown-variant",
                                                                 "en-other-variant", "en-wrong-enum"]
@@ -295,6 +295,15 @@ def mutate_node(rng, l, T, tg):
         if len(fs) >= 2:
             i, j = rng.sample(range(len(fs)), 2)
             fs[i] = (fs[j][0], fs[i][1])
+        return ("st", l[1], fs), m
+    if m == "st-repeat":
+        # every field of the definition AND one of them a second time, with another value (n + 1 entries; round-10 seed C09-r10)
+        fs = list(l[2])
+        if fs:
+            j = rng.randrange(len(fs))
+            T = dict(by_name[l[1]][2])[fs[j][0]] if l[1] in by_name else None
+            other = value(rng, T, by_name) if T is not None else fs[j][1]
+            fs.insert(rng.randint(0, len(fs)), (fs[j][0], other))
         return ("st", l[1], fs), m
     if m == "st-drop":
         fs = list(l[2])
